@@ -43,6 +43,7 @@ def loop_item(rng, n_items, par, outcomes, with_alt=False, delays=None, extra_co
         oc['after'] = okoc()
     return {'wf': wf, 'subwfs': {'sub.yaml': sub_wf(with_alt)}, 'oc': oc, 'script': script, 'input': {'x': 'x', 'n': 1, 'flag': True},
             'schedule': gen.noise_schedule(rng, max_us=300), 'extra': {'timeout_ms': 30000},
+            'expect_items': {'loop': [('success' if (outcomes[k] if k < len(outcomes) else 'success') == 'success' else 'fail') for k in range(n_items)]},
             'at': 'n=%d par=%d %s' % (n_items, par, ','.join(outcomes[:6]))}
 
 
